@@ -68,9 +68,43 @@ def row_valued_in_once(recipe):
     return False
 
 
+def once_cluster(rng):
+    """2-3 just_once templates over 1-2 tables, with and without nicknames (ids coincide across
+    tables), then ordinary templates that use them by table name, by nickname and in formulas."""
+    def T(table, nick=None, once=False, fields=(), count=None):
+        return {"table": table, "nick": nick, "count": count, "once": once,
+                "fields": [list(f) for f in fields], "friends": []}
+    tables = ["A", "B"] if rng.random() < 0.7 else ["A"]
+    nicks = ["zz", "aa", "mm"]
+    rng.shuffle(nicks)
+    stmts, names = [], []
+    for j in range(rng.randint(2, 3)):
+        tb = rng.choice(tables)
+        nk = nicks[j] if rng.random() < 0.6 else None
+        stmts.append(["obj", T(tb, nk, True, [("f0", ["int", 10 + j]), ("f1", ["str", rng.choice(S.WORDS)])],
+                              count=(["int", 2] if rng.random() < 0.2 else None))])
+        names.append(tb)
+        if nk:
+            names.append(nk)
+    for j in range(rng.randint(1, 2)):
+        fields = []
+        for q, nm in enumerate(rng.sample(names, k=min(len(names), rng.randint(1, 3)))):
+            fields.append(("r%d" % q, ["ref", nm]))
+            fields.append(("v%d" % q, ["formula", [["e", ["attr", ["var", nm], rng.choice(["f0", "id"])]]]]))
+        stmts.append(["obj", T(rng.choice(["C", "D"]), None, False, fields)])
+    if rng.random() < 0.4:        # an ordinary template of the same table shadows the table name locally
+        stmts.insert(rng.randint(len(stmts) - 1, len(stmts)), ["obj", T(rng.choice(tables), None, False, [("f0", ["int", 77])])])
+    return {"version": rng.choice([2, 3]), "options": [], "stmts": stmts}, ["just_once", "nick", "once_cluster"]
+
+
 def generate(rng, tier):
     n = 90 if tier == "quick" else 2500
     cases = []
+    for _ in range(n // 3):
+        r, feats = once_cluster(rng)
+        k = rng.randint(2, 4)
+        for ks in compositions(k, rng, limit=3 if tier == "quick" else 6):
+            cases.append({"recipe": r, "ks": ks, "features": feats})
     while len(cases) < n * 3 and n > 0:
         r, feats = S.gen_recipe(rng, W)
         finding_stream = rng.random() < 0.08
@@ -91,13 +125,20 @@ def run_impl(case):
     whole.pop("cont", None)
     runs = []
     cont = None
+    todays = []
+    import re
     for i, k in enumerate(ks):
         o = S.run_recipe(r, reps=k, continuation=cont, want_continuation=(i < len(ks) - 1))
         runs.append({kk: vv for kk, vv in o.items() if kk != "cont"})
         if "ok" not in o:
             break
         cont = o.get("cont")
-    return {"whole": whole, "runs": runs}
+        if cont:
+            m = re.search(r"^today: *(\S+)", cont, flags=re.M)
+            todays.append(m.group(1) if m else None)
+            if i == 0:      # pretend the dataset was started on an earlier day
+                cont = re.sub(r"^today: *\S+", "today: 2021-03-04", cont, count=1, flags=re.M)
+    return {"whole": whole, "runs": runs, "todays": todays}
 
 
 def coq_case(case, obs):
@@ -122,6 +163,10 @@ def oracle(case, obs):
     if any("ok" not in r for r in runs):
         bad = next(r for r in runs if "ok" not in r)
         return f"continued-run-fails: uninterrupted run of {sum(case['ks'])} iterations completes, split {case['ks']} fails: {bad.get('msg','')[:100]}"
+    td = obs.get("todays", [])
+    if len(td) >= 2 and any(t != "2021-03-04" for t in td[1:]):
+        return (f"today-not-carried: the dataset's `today` (2021-03-04 in the first continuation file) became {td[1:]} in "
+                f"the continuation files written by later runs")
     cat = [row for r in runs for row in r["ok"]]
     if cat != whole["ok"]:
         i = next((j for j, (a, b) in enumerate(zip(cat, whole["ok"])) if a != b), min(len(cat), len(whole["ok"])))
